@@ -460,6 +460,63 @@ func (s *state) socketSweep() {
 		A.rm.Close()
 		B.rm.Close()
 	}
+	// 5. bursts at Close, repeated on fresh listening hosts with different pauses between the start of the
+	// burst and Close (which connections are where at that moment is a matter of real timing)
+	for k, pause := range []time.Duration{0, 200 * time.Microsecond, time.Millisecond, 3 * time.Millisecond, 10 * time.Millisecond, 0, time.Millisecond, 30 * time.Millisecond} {
+		id := fmt.Sprintf("socket/burst-at-close/%d", k)
+		if !s.r.Want(id) || s.r.TooMany() {
+			continue
+		}
+		A, err := newSockHost(ka, true, k%2 == 1)
+		if err != nil {
+			continue
+		}
+		port := ""
+		for _, a := range A.h.Addrs() {
+			if p, err := a.ValueForProtocol(ma.P_TCP); err == nil {
+				port = p
+				break
+			}
+		}
+		var burst []net.Conn
+		var bmu sync.Mutex
+		var bwg sync.WaitGroup
+		for i := 0; i < 200 && port != ""; i++ {
+			bwg.Add(1)
+			go func(i int) {
+				defer bwg.Done()
+				c, err := net.DialTimeout("tcp", "127.0.0.1:"+port, 5*time.Second)
+				if err != nil {
+					return
+				}
+				switch i % 3 {
+				case 0:
+					c.Write([]byte("\x13/multistream/1.0.0\n"))
+				case 1:
+					c.Write([]byte("GET / HTTP/1.1\r\n"))
+				}
+				bmu.Lock()
+				burst = append(burst, c)
+				bmu.Unlock()
+			}(i)
+		}
+		time.Sleep(pause)
+		A.h.Close()
+		bwg.Wait()
+		for _, c := range burst {
+			c.Close()
+		}
+		s.r.Eval(1)
+		s.r.Count("socket_burst_conns_at_close", len(burst))
+		res, _ := settle(func() []string { return residue(A.rm) })
+		if len(res) > 0 {
+			s.r.Violation("socket:resource-scope-not-released/burst-at-close", id, fmt.Sprintf("residue 120 s after the host was closed during a burst of %d inbound connections: %v", len(burst), res), map[string]any{"pause_before_close": pause.String(), "burst": len(burst)})
+			A.rm.Close()
+			break
+		}
+		s.r.Nontrivial(id)
+		A.rm.Close()
+	}
 	// sockets back to the baseline?
 	deadline := time.Now().Add(60 * time.Second)
 	left := 0
